@@ -341,9 +341,18 @@ def run_driver(cmd, cases, timeout=900, nproc=None, weights=None):
     return res, crashes
 
 
-def run_robust(cmd, cases, timeout=900, died='DIED'):
+def run_robust(cmd, cases, timeout=900, died='DIED', _retry=True):
     """run_driver, then re-run (each in its own process) the cases that got no output because
-    an earlier case in their shard killed the driver."""
+    an earlier case in their shard killed the driver.  For the extracted model (died='MODEL-DIED') the shard time limit grows
+    with the number of cases, and a case whose shard ran out of time is evaluated once more on its own with a one-hour limit."""
+    if died == 'MODEL-DIED' and _retry and len(cases) > 1:
+        res = run_robust(cmd, cases, timeout=max(timeout, 30 * len(cases) // NCPU + 900), died=died, _retry=False)
+        late = [i for i, o in enumerate(res) if o.startswith(died) and 'TIMEOUT' in o]
+        if late:
+            again = run_robust(cmd, [cases[i] for i in late], timeout=3600, died=died, _retry=False)
+            for i, o in zip(late, again):
+                res[i] = o
+        return res
     res, crashes = run_driver(cmd, cases, timeout=timeout)
     for dead, rc, err in crashes:
         if dead is not None and res[dead] is None:
